@@ -310,8 +310,8 @@ impl PhoneticSuggestion {
                         }
                         selected.push_str(suffix);
 
-                        // Save this for future reuse.
-                        selections.insert(string.word().to_string(), selected.to_string());
+                        // This is not saved as a selection of its own, the selection of the
+                        // base word may be changed later and only that is what the user has chosen.
                         // One match is enough, another one would be appended to this one.
                         break;
                     }
